@@ -79,7 +79,7 @@ class Impl:
         self.sm = None
 
     # -- running one operation --------------------------------------------------
-    def _run(self, fn, discard=False):
+    def _run(self, fn, discard=False, must_await=False):
         env = self.env
         env.top = []
         env.stack = []
@@ -91,6 +91,9 @@ class Impl:
                     r = fn()
                     if inspect.isawaitable(r):
                         r = await r
+                    elif must_await:
+                        raise NotAwaitable(f"inside a running loop the call returned {r!r}, "
+                                           f"which cannot be awaited")
                     return r
                 r = VL().run_until_complete(vco())
             elif self.cfg.engine == "async" and self.cfg.driver == "inloop":
@@ -98,6 +101,9 @@ class Impl:
                     r = fn()
                     if inspect.isawaitable(r):
                         r = await r
+                    elif must_await:
+                        raise NotAwaitable(f"inside a running loop the call returned {r!r}, "
+                                           f"which cannot be awaited")
                     return r
                 r = loop().run_until_complete(co())
             else:
@@ -152,7 +158,8 @@ class Impl:
         return self._run(fn)
 
     def activate(self):
-        return self._run(lambda: self.sm.activate_initial_state(), discard=True)
+        return self._run(lambda: self.sm.activate_initial_state(), discard=True,
+                         must_await=True)
 
     def send(self, ev, vals=None, tag=None, args=(), kw=None, style="send"):
         if vals is not None:
@@ -161,20 +168,20 @@ class Impl:
         if tag is not None:
             kw["tag"] = tag
         if style == "send":
-            return self._run(lambda: self.sm.send(ev, *args, **kw))
+            return self._run(lambda: self.sm.send(ev, *args, **kw), must_await=True)
         if style == "method":
-            return self._run(lambda: getattr(self.sm, ev)(*args, **kw))
+            return self._run(lambda: getattr(self.sm, ev)(*args, **kw), must_await=True)
         if style == "events_item":
-            return self._run(lambda: _pick(self.sm.events, ev)(*args, **kw))
+            return self._run(lambda: _pick(self.sm.events, ev)(*args, **kw), must_await=True)
         if style == "allowed_item":
-            return self._run(lambda: _pick(self.sm.allowed_events, ev)(*args, **kw))
+            return self._run(lambda: _pick(self.sm.allowed_events, ev)(*args, **kw), must_await=True)
         if style == "bound":
             if getattr(self, "_bound", None) is None:
                 self._bound = _Plain()
                 self.sm.bind_events_to(self._bound)
-            return self._run(lambda: getattr(self._bound, ev)(*args, **kw))
+            return self._run(lambda: getattr(self._bound, ev)(*args, **kw), must_await=True)
         if style == "mixin":
-            return self._run(lambda: getattr(self.sm.model, ev)(*args, **kw))
+            return self._run(lambda: getattr(self.sm.model, ev)(*args, **kw), must_await=True)
         raise AssertionError(style)
 
     @property
@@ -184,6 +191,11 @@ class Impl:
 
 class _Plain:
     pass
+
+
+class NotAwaitable(Exception):
+    """An async machine driven inside a running loop must hand back awaitables
+    (`await sm.send(...)`, `await sm.activate_initial_state()`)."""
 
 
 def _pick(events, ev):
